@@ -112,6 +112,8 @@ func checkC06(c *Ctx, r *Report) {
 	checkRoleByteWire(c, r)
 	// ... and the commands the library builds for the caller carry the caller's arguments
 	checkHelperRequests(c, r)
+	// ... including the reservation under which the SDR walk reads record bodies (shared with C14)
+	checkWalkCommandsReserved(c, r)
 	// ... of commands whose definitions (operation tables) nothing rewrites at run time (shared with C19, C03)
 	checkPackageTablesReadOnly(c, r)
 	// ... and whose named field values mean on the wire what their names say
@@ -152,42 +154,8 @@ func checkC06(c *Ctx, r *Report) {
 		r.Check(ok, "ipmi.OpenSessionReq.SerializeTo|payload order", fn.Pos(), strings.Join(order, ","), "payloads are serialised in the order "+strings.Join(order, ",")+", want authentication, integrity, confidentiality")
 	}
 
-	// username guard
-	r.Rule("username-guard", "a username longer than 16 bytes is rejected before anything is written to the buffer", 1)
-	if fn := c.Method("pkg/ipmi", "RAKPMessage1", "SerializeTo"); fn == nil {
-		r.Lost("ipmi.RAKPMessage1.SerializeTo")
-	} else {
-		ok := false
-		for _, ifi := range ifsOf(fn) {
-			op, x, y, _, isBin := condOf(ifi.Cond)
-			if !isBin || op != token.GTR {
-				continue
-			}
-			arg, isLen := lenOf(x)
-			k, isK := constInt(y)
-			if !isLen || !isK || k != 16 {
-				continue
-			}
-			if ld, isLd := arg.(*ssa.UnOp); !isLd || apOf(ld.X).SelString() != "Username" {
-				continue
-			}
-			// the "too long" arm returns an error; every buffer operation is behind the other arm
-			tooLong := ifi.Block().Succs[0]
-			ret, isRet := tooLong.Instrs[len(tooLong.Instrs)-1].(*ssa.Return)
-			if !isRet || isNilConst(ret.Results[0]) {
-				continue
-			}
-			ok = true
-			allInstrs(fn, false, func(in ssa.Instruction) {
-				if cc := asCall(in); cc != nil && cc.IsInvoke() && strings.HasSuffix(cc.Value.Type().String(), "SerializeBuffer") {
-					if reachAvoiding(fn, nil, nil, map[edge]bool{{ifi.Block(), ifi.Block().Succs[1]}: true})[in.Block()] {
-						ok = false
-					}
-				}
-			})
-		}
-		r.Check(ok, "ipmi.RAKPMessage1.SerializeTo|len(Username) > 16", fn.Pos(), "rejected with an error before the buffer is touched", "a username longer than 16 bytes is not rejected before the buffer is written (it would be truncated or overflow the length byte)")
-	}
+	// username guard (shared with C01)
+	checkUsernameGuard(c, r)
 	// byte 27 of RAKP1 is the username length and the name follows
 	r.Rule("username-encoding", "RAKP Message 1 byte 27 is len(Username) and bytes 28… are the username; total length 28+len", 1)
 	if fn := c.Method("pkg/ipmi", "RAKPMessage1", "SerializeTo"); fn != nil {
@@ -593,5 +561,46 @@ func checkRequestPassedWhole(c *Ctx, r *Report) {
 				r.Check(len(missing) == 0, key, al.Pos(), "every field of the request parameter is copied", "the command's request does not carry the caller's "+strings.Join(missing, ", ")+": the helper sends zero there whatever was asked")
 			})
 		}
+	}
+}
+
+// checkUsernameGuard: the only usernames RAKP Message 1 refuses are those longer than 16 bytes,
+// and it refuses them before anything is written. Shared with C01 ("all usernames of 0..16
+// bytes": a guard that also refuses 16 fails the handshake before it starts).
+func checkUsernameGuard(c *Ctx, r *Report) {
+	r.Rule("username-guard", "a username longer than 16 bytes is rejected before anything is written to the buffer", 1)
+	if fn := c.Method("pkg/ipmi", "RAKPMessage1", "SerializeTo"); fn == nil {
+		r.Lost("ipmi.RAKPMessage1.SerializeTo")
+	} else {
+		ok := false
+		for _, ifi := range ifsOf(fn) {
+			op, x, y, _, isBin := condOf(ifi.Cond)
+			if !isBin || op != token.GTR {
+				continue
+			}
+			arg, isLen := lenOf(x)
+			k, isK := constInt(y)
+			if !isLen || !isK || k != 16 {
+				continue
+			}
+			if ld, isLd := arg.(*ssa.UnOp); !isLd || apOf(ld.X).SelString() != "Username" {
+				continue
+			}
+			// the "too long" arm returns an error; every buffer operation is behind the other arm
+			tooLong := ifi.Block().Succs[0]
+			ret, isRet := tooLong.Instrs[len(tooLong.Instrs)-1].(*ssa.Return)
+			if !isRet || isNilConst(ret.Results[0]) {
+				continue
+			}
+			ok = true
+			allInstrs(fn, false, func(in ssa.Instruction) {
+				if cc := asCall(in); cc != nil && cc.IsInvoke() && strings.HasSuffix(cc.Value.Type().String(), "SerializeBuffer") {
+					if reachAvoiding(fn, nil, nil, map[edge]bool{{ifi.Block(), ifi.Block().Succs[1]}: true})[in.Block()] {
+						ok = false
+					}
+				}
+			})
+		}
+		r.Check(ok, "ipmi.RAKPMessage1.SerializeTo|len(Username) > 16", fn.Pos(), "rejected with an error before the buffer is touched", "a username longer than 16 bytes is not rejected before the buffer is written (it would be truncated or overflow the length byte)")
 	}
 }
